@@ -117,7 +117,7 @@ def check(ctx):
             if cl[0] == "param": continue     # forwarded parameter: checked at its own call sites
             n_rf += 1
             okf = False
-            if cl[0] == "closure":
+            if cl[0] in ("closure", "fn") and fx.fn_opt(cl[1]) is not None:      # closure literal or a named fn item passed as the callback
                 cb = Body(fx.fn(cl[1]))
                 vals = [st[2][1][1].get("int") for b2_ in cb.reachable for st in cb.stmts(b2_) if st[0] == "A" and not st[1]["p"] and st[1]["l"] == 0 and st[2][0] == "Use" and st[2][1][0] == "k"]
                 okf = vals == [0] and not cb.calls
